@@ -202,6 +202,15 @@ def generate():
 
 # ---------------------------------------------------------------- scripts
 
+def leaf_off(mode, j, tsz):
+    """offset of the pointer the harness stores for leaf j (same rule as leafOff in harness/store/h.c)"""
+    if mode == 0 or tsz == 0:
+        return 0
+    if mode == 1:
+        return (j * 7) % tsz
+    return tsz - 1
+
+
 def pat_bytes(bid, gen, n):
     return [1 + ((i + bid * 7 + gen * 13) % 251) for i in range(n)]
 
@@ -509,6 +518,12 @@ def sanitize_auto(ops):
         elif k == "r":
             if o[1] in live:
                 out.append(o)
+        elif k == "K":
+            live.update(range(o[1], o[1] + 2 * o[2])); out.append(o)
+        elif k == "W":
+            live.update(range(o[4], o[4] + o[2])); live.add(o[1]); out.append(o)
+        elif k in ("g", "c"):
+            out.append(o)
     return out
 
 
@@ -579,7 +594,8 @@ class Tools:
 
 
 def run_harness(tools, ops, timeout=600):
-    rc, out, err = C.run([tools.harness], input=script_text(ops), timeout=timeout)
+    rc, out, err = C.run(["/bin/sh", "-c", "ulimit -s unlimited 2>/dev/null; exec %s" % tools.harness],
+                         input=script_text(ops), timeout=timeout)
     return rc, out.splitlines(), err
 
 
@@ -606,6 +622,8 @@ class Oracle:
         self.by_start = {}      # raw -> id
         self.roots = {}         # slot -> (rawval, canon)
         self.viol = []          # (what, step)
+        self.known = []         # (what, step, key): failures of a kind that has a stable key
+        self.gclevel = None
         self.model_in = []      # model driver input lines
         self.expect = []        # expected canonical model output per model input line (None = ignore)
         self.stack = []
@@ -640,10 +658,10 @@ class Oracle:
         return None
 
     def add_block(self, bid, raw, req, tsz, canon, gen=0, ptrs=None):
-        if self.origin is None:
+        if self.origin is None and canon != (0, 0):
             self.origin = raw - canon[1] - self.base_of.get(canon[0], 0) * self.p["PgSize"][0]
         self.blocks[bid] = {"raw": raw, "req": req, "tsz": tsz, "gen": gen, "canon": canon,
-                            "abs": raw - self.origin, "ptrs": ptrs or {}}
+                            "abs": raw - (self.origin or 0), "ptrs": ptrs or {}}
         bisect.insort(self.starts, raw)
         self.by_start[raw] = bid
 
@@ -677,7 +695,15 @@ class Oracle:
 
     def common(self, kv, step, line):
         if kv.get("au") != "1":
-            self.bad("stoAudit failed after step (%s)" % kv.get("auditmsg", "?"), step)
+            if self.gclevel == 0:
+                # tagging is off after stoCtl(StoCtl_GcLevel, StoCtl_GcLevel_Never): the audit reads tags
+                # that are no longer written
+                if len(self.known) < 5:
+                    self.known.append(("stoAudit fails once stoCtl(StoCtl_GcLevel, StoCtl_GcLevel_Never) has switched "
+                                       "tagging off (%s)" % kv.get("auditmsg", "?"), step,
+                                       "C10:audit-fails-with-gclevel-never"))
+            else:
+                self.bad("stoAudit failed after step (%s)" % kv.get("auditmsg", "?"), step)
         if kv.get("pat") != "1":
             self.bad("contents of live block changed: pat=%s" % kv.get("pat"), step)
         if kv.get("lost", "-1") != "-1":
@@ -804,7 +830,7 @@ class Oracle:
             b = self.blocks[op[1]]
             if ckv.get("same") != "1" or int(ckv["z"]) != b["tsz"]:
                 self.bad("recode changed more than the code: %s" % canon, step)
-            if int(ckv["c"]) != op[2] % (self.p["QmCodeMask"][0] + 1):
+            if self.gclevel != 0 and int(ckv["c"]) != op[2] % (self.p["QmCodeMask"][0] + 1):
                 self.bad("recode to %d reads back as %s" % (op[2], ckv["c"]), step)
             self.model_in.append("c %d %d" % (op[1], op[2]))
             self.expect.append(canon_cmp)
@@ -849,8 +875,49 @@ class Oracle:
             if op[1] in self.blocks:
                 self.del_block(op[1])
         elif k == "L":
-            pass
+            self.gclevel = op[1]
+        elif k == "K":
+            first, n, cellsz, leafsz, nslot, lslot, noff, lmode = op[1:9]
+            if " null" in canon:
+                self.bad("stoAlloc returned NULL while building a chain", step)
+                return False
+            bl = [(int(a, 16), int(z)) for a, z in (x.split(":") for x in kv["blocks"].split(";"))]
+            for i in range(2 * n):
+                raw, tsz = bl[i]
+                req = cellsz if i < n else leafsz
+                self.check_new(first + i, raw, req, tsz, step)
+                self.add_block(first + i, raw, req, tsz, (0, 0))
+            for i in range(n):
+                lraw, ltsz = bl[n + i]
+                pt = {lslot: lraw + leaf_off(lmode, i, ltsz)}
+                if i + 1 < n:
+                    pt[nslot] = bl[i + 1][0] + noff
+                self.blocks[first + i]["ptrs"] = pt
+            st["alloc"] += 2 * n
+        elif k == "W":
+            bid, n, leafsz, first, lmode = op[1:6]
+            if " null" in canon:
+                self.bad("stoAlloc returned NULL while building a fan-out", step)
+                return False
+            lv = [(int(a, 16), int(z)) for a, z in (x.split(":") for x in kv["leaves"].split(";"))]
+            for i, (raw, tsz) in enumerate(lv):
+                self.check_new(first + i, raw, leafsz, tsz, step)
+                self.add_block(first + i, raw, leafsz, tsz, (0, 0))
+            raw, tsz = [(int(a, 16), int(z)) for a, z in (x.split(":") for x in kv["blocks"].split(";"))][0]
+            self.check_new(bid, raw, 8 * (n + 2), tsz, step)
+            self.add_block(bid, raw, 8 * (n + 2), tsz, (0, 0),
+                           ptrs={2 + j: lv[j][0] + leaf_off(lmode, j, lv[j][1]) for j in range(n)})
+            st["alloc"] += n + 1
         return True
+
+    def check_new(self, bid, raw, req, tsz, step):
+        if raw % self.align:
+            self.bad("block %#x for request %d is not %d-aligned" % (raw, req, self.align), step)
+        if tsz < req:
+            self.bad("block of %d bytes handed out for a request of %d" % (tsz, req), step)
+        ov = self.overlap(raw, max(tsz, req))
+        if ov is not None:
+            self.bad("new block [%#x,+%d) overlaps live block %d" % (raw, max(tsz, req), ov), step)
 
 
 def check_history(tools, params, ops, use_model=True, timeout=900, capacity=False):
@@ -898,7 +965,7 @@ def check_history(tools, params, ops, use_model=True, timeout=900, capacity=Fals
             aborted = True
             break
         i += 1
-    res = {"viol": orc.viol, "mismatch": None, "stats": orc.stats, "sizes": orc.sizes_seen,
+    res = {"viol": orc.viol, "known": orc.known, "mismatch": None, "stats": orc.stats, "sizes": orc.sizes_seen,
            "hl": hl, "model_lines": 0, "intervals": orc.intervals}
     if use_model and not orc.viol:
         rc2, ml, err2 = run_model(tools, orc.model_in, timeout)
@@ -929,6 +996,8 @@ def failing(tools, params, ops, want, auto=False):
     if not ops:
         return False
     r = check_history(tools, params, ops, use_model=(want == "mismatch"), capacity=auto)
+    if want == "known":
+        return bool(r["known"])
     return bool(r["viol"]) if want == "viol" else (r["mismatch"] is not None and not r["viol"])
 
 
@@ -941,6 +1010,8 @@ def shrink(tools, params, ops, want, budget=400, auto=False):
     if want == "viol" and r["viol"]:
         last = max(0, min(s for (_, s) in r["viol"]))
         ops = ops[:last + 1]
+    if want == "known" and r["known"]:
+        ops = ops[:min(x[1] for x in r["known"]) + 1]
     n = 2
     calls = 0
     while len(ops) >= 2 and calls < budget:
@@ -1018,8 +1089,18 @@ def searcher_factory(rep, state):
 
 # ---------------------------------------------------------------- run
 
+def report_known(rep, tools, params, ops, r, tag):
+    """Failures of a kind that carries a stable key (a defect of the unchanged tree that is recorded or fixed
+    by the lead): minimal history, reported under that key."""
+    small = shrink(tools, params, ops, "known", budget=60, auto=True)
+    r2 = check_history(tools, params, small, use_model=False)
+    kn = r2["known"] or r["known"]
+    rep.violation(kn[0][0], {"history": [list(o) for o in small], "what": kn[0][0], "step": kn[0][1],
+                             "stream": tag, "transcript": r2["hl"][-6:]}, key=kn[0][2])
+
+
 def report_failure(rep, tools, params, ops, r, tag):
-    auto = tag.startswith("auto")
+    auto = tag.startswith("auto") or tag.startswith("deep") or tag.startswith("ctl")
     if r["viol"]:
         small = shrink(tools, params, ops, "viol", budget=(40 if auto else 400), auto=auto)
         r2 = check_history(tools, params, small, use_model=False, capacity=auto)
@@ -1117,7 +1198,64 @@ def targeted_histories(params):
         ops += [("f", first), ("a", bid, 260, 2)]; bid += 1
     ops.append(("g",))
     hs.append(("mixed-merge", ops))
+    # 4. a block whose ONLY reference is an interior pointer at an offset aimed at the marker's constants
+    #    (quantum, fixed-class limit, page size, 256 quanta = 64 KiB, ...), once from the root table and once
+    #    from a word of another heap block
+    q, pg, h = params["MixedSizeQuantum"][0], params["PgSize"][0], params["MxMemHeadSize"][0]
+    ops, bid = [("a", 0, 64, 1), ("R", 1, 0, 0)], 1          # block 0: the holder, rooted in slot 1
+    for n in [8, 24, 48, fmax, fmax + 1, 700, 3 * q - h, pg, 5000, 2 * pg + 1, 65536 - h, 70000, 300000]:
+        ts = true_size(n, params)
+        offs = {0, 1, 7, 8, ts // 2, ts - 8, ts - 1}
+        for c in (q, fmax, pg, 2 * pg, 255 * q, 256 * q, 257 * q, 65536, 4 * 65536):
+            offs |= {c - h - 1, c - h, c - h + 1, c - 1, c, c + 1}
+        ops.append(("a", bid, n, 2))
+        for off in sorted(o for o in offs if 0 <= o < ts):
+            ops += [("R", 0, bid, off), ("g",)]                       # only the root table refers to it
+            ops += [("R", 0, -1, 0), ("p", 0, 2, bid, off), ("g",)]     # only a word of block 0 refers to it
+            ops.append(("p", 0, 2, -1, 0))
+        ops += [("g",)]                                               # now nothing does: it goes
+        bid += 1
+    hs.append(("interior-offsets", ops))
+    # 5. a short chain built from single operations (compared with the model): next pointer in word 2,
+    #    leaf pointer in a later word
+    ops, n = [], 150
+    for i in range(n):
+        ops += [("a", i, 48, 3), ("a", n + i, 16, 4)]
+    for i in range(n):
+        if i + 1 < n:
+            ops.append(("p", i, 2, i + 1, (i * 5) % 48))
+        ops.append(("p", i, 4, n + i, (i * 3) % 16))
+    ops += [("R", 0, 0, 0), ("g",), ("R", 0, 75, 0), ("g",), ("R", 0, -1, 0), ("g",)]
+    hs.append(("small-chain", ops))
     return hs
+
+
+def deep_histories(params, quick):
+    """Oracle-checked histories with DEEP and WIDE reachability (built by the harness' macro operations):
+    the marker has to follow every pointer of every object however deep it is."""
+    hs = []
+    n = 20000 if quick else 40000
+    #        K first n cellsz leafsz nslot lslot noff lmode
+    tail = [("R", 0, 0, 0), ("g",), ("a", 130000, 100, 1), ("g",), ("R", 0, -1, 0), ("g",)]
+    hs.append(("chain-next-first", [("K", 0, n, 48, 16, 2, 4, 0, 1)] + tail))
+    hs.append(("chain-leaf-first", [("K", 0, n, 48, 24, 3, 2, 5, 2)] + tail))
+    hs.append(("chain-mixed-cells", [("K", 0, (18000 if quick else 30000), 300, 8, 2, 30, 0, 0)] + tail))
+    if not quick:
+        hs.append(("chain-big-leaves", [("K", 0, 17000, 32, 700, 2, 3, 31, 1)] + tail))
+    #        W id n leafsz first lmode
+    hs.append(("fan-out", [("W", 0, 100000 if quick else 120000, 16, 1, 1)] + tail))
+    hs.append(("fan-out-mixed-leaves", [("W", 0, 20000, 300, 1, 2)] + tail))
+    return hs
+
+
+def never_history(rng, params, nsteps):
+    """stoCtl(StoCtl_GcLevel, StoCtl_GcLevel_Never) is part of the interface: allocation, free, resize and
+    recode with tagging switched off (no collections)."""
+    ops = [("L", 0)]
+    for o in gen_random(rng, nsteps, params, gc_rate=0.0, big=False, maxlive=30):
+        if o[0] in ("a", "f", "r", "c"):
+            ops.append(o)
+    return ops
 
 
 _W = None
@@ -1126,12 +1264,12 @@ _W = None
 def _work(item):
     tools, pv = _W
     tag, ops, use_model = item
-    auto = tag.startswith("auto")
+    auto = tag.startswith("auto") or tag.startswith("deep") or tag.startswith("ctl")
     if auto:
         ops2 = ops           # already valid; the sanitiser's rules are for the explicit-collection streams
     else:
         ops2 = sanitize(ops, pv)
-    r = check_history(tools, pv, ops2, use_model=use_model, capacity=auto)
+    r = check_history(tools, pv, ops2, use_model=use_model, capacity=tag.startswith("auto"))
     r = dict(r)
     r["hl"] = r["hl"][-15:]
     return tag, ops2, r
@@ -1208,6 +1346,9 @@ def run(rep, tier):
         elif o[0] == "f" and o[1] in slot_of:
             auto.append(("R", slot_of.pop(o[1]), -1, 0))
     streams.append(("auto-gc", auto, False))
+    for name, ops in deep_histories(pv, quick):
+        streams.append(("deep:" + name, ops, False))
+    streams.append(("ctl-never", never_history(C.rng("c10-never"), pv, 600 if quick else 4000), False))
     # automatic level WITH garbage: the allocator collects by itself inside stoAlloc and reclaims
     # unreferenced, never-freed pieces from pages that also hold live ones
     cls = pv["fixedSize"]
@@ -1229,6 +1370,7 @@ def run(rep, tier):
                         gen_auto_garbage(rng, szs, k, na), False))
 
     totals = {}
+    knowns = {}
     auto_intervals = {}
     sizes = set()
     failures = []
@@ -1250,6 +1392,10 @@ def run(rep, tier):
                 auto_intervals[tag] = r.get("intervals", [])[:12]
             if r["viol"] or r["mismatch"]:
                 failures.append((tag, ops2, r))
+            elif r.get("known"):
+                knowns.setdefault(r["known"][0][2], (tag, ops2, r))
+    for key_, (tag, ops2, r) in knowns.items():
+        report_known(rep, tools, pv, ops2, r, tag)
     for tag, ops2, r in failures[:3]:
         report_failure(rep, tools, pv, ops2, r, tag)
     for tag, ops2, r in failures[3:]:
